@@ -41,7 +41,14 @@ func TestApprovalsAcrossReconnect(t *testing.T) {
 		if all {
 			first[rapid.IntRange(0, nCb-1).Draw(t, "notThisOne")] = false
 		}
-		if !waitFor(func() bool { return e.msgFor(w1, nCb-1) != nil && e.msgFor(w1, 0) != nil }, 20*timeout) {
+		if !waitFor(func() bool {
+			for c := 0; c < nCb; c++ {
+				if e.msgFor(w1, c) == nil {
+					return false
+				}
+			}
+			return true
+		}, 20*timeout) {
 			world.Fail(t, "C12/callback-not-invoked", "approval callbacks not invoked for the first write")
 		}
 		partly := 0
@@ -110,7 +117,9 @@ func TestApprovalsAcrossReconnect(t *testing.T) {
 			// a verdict for the old write arrives after all that (the application was slow)
 			for c, a := range first {
 				if !a {
-					e.srv.ApproveOrDenyWrite(e.msgFor(write{peer: 0, counter: 7}, c), errType(approve))
+					if m := e.msgFor(write{peer: 0, counter: 7}, c); m != nil {
+						e.srv.ApproveOrDenyWrite(m, errType(approve))
+					}
 					break
 				}
 			}
